@@ -742,7 +742,7 @@ Proof.
       - rewrite (Hirm ltac:(discriminate)). rewrite (Hidx ltac:(discriminate)).
         destruct (N.ltb_spec (N.of_nat i) (N.of_nat (length xs))); [reflexivity|lia]. }
     rewrite Hsel in Hr. clear Hsel. unfold sp_take_elem in Hr. cbv zeta in Hr. fold xs in Hr.
-    destruct sk as [| |d|d j| |k0|n0 d0 k0|n0 k0]; try discriminate.
+    destruct sk as [| |d|d j| |k0|n0 d0 k0|n0 k0|]; try discriminate.
     + (* KDrop *)
       injection Hr as <-.
       destruct (sink_drop c w st vid av k i vv h HW Hreq HV Hfor Hfuse (known_of a)) as (w2 & E & Hso).
@@ -982,7 +982,7 @@ Qed.
 
 (** what happens to a yielded item: dropped or downcast, the value is destroyed once; the storage is
     not touched *)
-Lemma item_sink_spec ww evs idx sk out cleanup :
+Lemma item_sink_spec0 ww evs idx sk out cleanup :
   Walking ww evs -> (s <= idx)%nat -> (idx < e)%nat ->
   match sk with KDrop => Some [] | KDown => Some [nth idx xs 0] | _ => None end = Some out ->
   exists ww', unwinding (item_sink c vid a (ptr_at c vr (N.of_nat idx)) sk) cleanup ww = Ok out ww' /\
@@ -1048,6 +1048,21 @@ Proof.
       * apply Hevs. unfold drop_ev. destruct (c_dg c); [apply uevents_emit_user; reflexivity|reflexivity].
 Qed.
 
+Lemma item_sink_spec ww evs idx sk out cleanup :
+  Walking ww evs -> (s <= idx)%nat -> (idx < e)%nat ->
+  match sk with KDrop | KSkip => Some [] | KDown => Some [nth idx xs 0] | _ => None end = Some out ->
+  exists ww', unwinding (item_sink c vid a (ptr_at c vr (N.of_nat idx)) sk) cleanup ww = Ok out ww' /\
+              Walking ww' (evs ++ drop_ev c (nth idx xs 0)).
+Proof.
+  intros Hwk Hsi Hie Hout.
+  destruct sk; try discriminate.
+  - apply (item_sink_spec0 ww evs idx KDrop out cleanup Hwk Hsi Hie Hout).
+  - apply (item_sink_spec0 ww evs idx KDown out cleanup Hwk Hsi Hie Hout).
+  - (* an item passed over by nth: destroyed exactly like a dropped one *)
+    change (item_sink c vid a (ptr_at c vr (N.of_nat idx)) KSkip) with (item_sink c vid a (ptr_at c vr (N.of_nat idx)) KDrop).
+    apply (item_sink_spec0 ww evs idx KDrop out cleanup Hwk Hsi Hie Hout).
+Qed.
+
 Lemma walk_spec cleanup : forall pat i j ww evs rets ds i' j',
   Walking ww evs -> (s <= i)%nat -> (i <= j)%nat -> (j <= e)%nat ->
   sp_walk xs pat i j = Some (rets, ds, i', j') ->
@@ -1075,7 +1090,7 @@ Proof.
     + set (idx := if front then i else (j - 1)%nat) in *.
       set (i1 := if front then S i else i) in *. set (j1 := if front then j else (j - 1)%nat) in *.
       set (t := nth idx xs 0) in *.
-      destruct (match sk with KDrop => Some [] | KDown => Some [t] | _ => None end) as [out|] eqn:Eout; [|discriminate].
+      destruct (match sk with KDrop | KSkip => Some [] | KDown => Some [t] | _ => None end) as [out|] eqn:Eout; [|discriminate].
       destruct (sp_walk xs pat i1 j1) as [[[[rets0 ds0] i0] j0]|] eqn:Er; [|discriminate].
       injection Hsp as <- <- <- <-.
       assert (Hidx : (s <= idx)%nat /\ (idx < e)%nat) by (unfold idx; destruct front; lia).
